@@ -132,8 +132,11 @@ pub fn opts_for(prop: &str) -> GenOpts {
         "C04" => {
             o.w_query = 12;
             o.w_stop = 3;
+            // the cursor model includes skip_to_end: the order clauses of C04 hold for histories
+            // with skips as well (seeded change C04-r3)
+            o.w_skip = 4;
+            o.extra_max = 3;
             o.max_ops = 4;
-            o.extra_max = 1;
             o.min_threads = 1;
         }
         "C05" => {
